@@ -147,6 +147,13 @@ func restoreView(w *World, data []byte, tag string) (map[string]string, string) 
 
 func sameView(a, b map[string]string) bool { return len(DiffObs(a, b)) == 0 }
 
+// c12Capture: what was on disk under the state file's name when a hook point was reached
+type c12Capture struct {
+	point string
+	data  []byte
+	exist bool
+}
+
 func c12Sim(t *testing.T, run *Run, sc c12Scenario) {
 	w := NewWorld(t, WorldOpt{TLSListener: true})
 	defer w.Close()
@@ -155,13 +162,8 @@ func c12Sim(t *testing.T, run *Run, sc c12Scenario) {
 		run.Violate(sig, fmt.Sprintf(format, a...), sc, func() []string { return w.Trace(100) })
 	}
 	prim := w.Primary()
-	type capture struct {
-		point string
-		data  []byte
-		exist bool
-	}
 	var mu sync.Mutex
-	var caps []capture
+	var caps []c12Capture
 	capturing := false
 	w.mu.Lock()
 	w.OnHook = func(h HookRec) {
@@ -173,12 +175,21 @@ func c12Sim(t *testing.T, run *Run, sc c12Scenario) {
 		}
 		b, err := os.ReadFile(w.StatePath)
 		mu.Lock()
-		caps = append(caps, capture{h.Point, b, err == nil})
+		caps = append(caps, c12Capture{h.Point, b, err == nil})
 		mu.Unlock()
 	}
 	w.mu.Unlock()
 	if sc.Part == "sim-overlap" {
-		c12Overlap(w, run, sc, fail)
+		c12Overlap(w, run, sc, fail, func() {
+			mu.Lock()
+			caps, capturing = nil, true
+			mu.Unlock()
+		}, func() []c12Capture {
+			mu.Lock()
+			defer mu.Unlock()
+			capturing = false
+			return caps
+		})
 		return
 	}
 	points := 0
@@ -329,7 +340,7 @@ func c12Sim(t *testing.T, run *Run, sc c12Scenario) {
 
 // c12Overlap: pairs of commands run concurrently with their snapshot steps interleaved by hook
 // delays (A lists, B lists, B writes, A writes, ...); once both returned the file must be current.
-func c12Overlap(w *World, run *Run, sc c12Scenario, fail func(sig, format string, a ...any)) {
+func c12Overlap(w *World, run *Run, sc c12Scenario, fail func(sig, format string, a ...any), capStart func(), capStop func() []c12Capture) {
 	prim := w.Primary()
 	rng := run.Rand(sc.Idx + 1<<29)
 	// a base configuration with two services, so that the pair can touch different services
@@ -343,10 +354,17 @@ func c12Overlap(w *World, run *Run, sc c12Scenario, fail func(sig, format string
 		}
 	}
 	g.exists["s0"], g.exists["s1"] = true, true
-	pairs := 0
+	exists := map[string]bool{"s0": true, "s1": true}
+	pairs, points := 0, 0
 	for round := 0; round < 6; round++ {
 		mk := func(svc string) Cmd {
-			switch rng.IntN(5) {
+			k := rng.IntN(6)
+			if !exists[svc] {
+				k = 4
+			}
+			switch k {
+			case 5:
+				return Cmd{Kind: "remove", Svc: svc}
 			case 0:
 				return Cmd{Kind: "pause", Svc: svc, DrainTO: time.Second, MaxPause: 300 * time.Millisecond}
 			case 1:
@@ -361,6 +379,14 @@ func c12Overlap(w *World, run *Run, sc c12Scenario, fail func(sig, format string
 			return c
 		}
 		c1, c2 := mk("s0"), mk("s1")
+		directed := round == 0
+		if directed {
+			// directed: a quick command on s0 has listed the services for its snapshot when s1 is removed
+			c1 = []Cmd{{Kind: "stop", Svc: "s0", DrainTO: time.Second, Msg: "m"}, {Kind: "pause", Svc: "s0", DrainTO: time.Second, MaxPause: time.Minute}, {Kind: "rollout-stop", Svc: "s0"}}[sc.Idx%3]
+			c2 = Cmd{Kind: "remove", Svc: "s1"}
+		}
+		pre := configView(w, prim, fmt.Sprintf("pre%d", round))
+		capStart()
 		// per-occurrence real-time delays at the snapshot steps (they sit inside the snapshot
 		// lock, where a virtual sleep must not be used): which command lists/writes first varies
 		spins := []int{rng.IntN(4) * 400, rng.IntN(4) * 400, rng.IntN(4) * 400, rng.IntN(4) * 400, 0}
@@ -369,6 +395,18 @@ func c12Overlap(w *World, run *Run, sc c12Scenario, fail func(sig, format string
 		for _, p := range []string{"snapshot.listed", "snapshot.created", "snapshot.written"} {
 			w.PointSpin[p] = func(n int) int { return spins[n%len(spins)] }
 		}
+		reached := make(chan struct{})
+		if directed {
+			var once sync.Once
+			w.PointSpin["snapshot.listed"] = func(n int) int {
+				first := false
+				once.Do(func() { first = true; close(reached) })
+				if first {
+					return 20000 // scheduler yields: time for the other command's in-memory step
+				}
+				return 0
+			}
+		}
 		w.mu.Unlock()
 		var wg sync.WaitGroup
 		var r1, r2 *CmdRec
@@ -376,14 +414,27 @@ func c12Overlap(w *World, run *Run, sc c12Scenario, fail func(sig, format string
 		go func() { defer wg.Done(); r1 = c1.Exec(w, w.Router) }()
 		go func() {
 			defer wg.Done()
-			time.Sleep(time.Duration(rng.IntN(3)) * (5*time.Millisecond + OffArrival))
+			if directed {
+				<-reached
+			} else {
+				time.Sleep(time.Duration(rng.IntN(3)) * (5*time.Millisecond + OffArrival))
+			}
 			r2 = c2.Exec(w, w.Router)
 		}()
 		wg.Wait()
+		mine := capStop()
 		w.ClearDelays()
 		if r1.Panic != "" || r2.Panic != "" {
 			fail("panic:overlap", "overlapping %s / %s panicked: %s %s", c1.Kind, c2.Kind, r1.Panic, r2.Panic)
 			return
+		}
+		for _, c := range []struct {
+			c Cmd
+			r *CmdRec
+		}{{c1, r1}, {c2, r2}} {
+			if c.r.Err == "" && (c.c.Kind == "remove" || c.c.Kind == "deploy") {
+				exists[c.c.Svc] = c.c.Kind == "deploy"
+			}
 		}
 		live := configView(w, prim, fmt.Sprintf("live%d", round))
 		data, err := os.ReadFile(w.StatePath)
@@ -400,10 +451,52 @@ func c12Overlap(w *World, run *Run, sc c12Scenario, fail func(sig, format string
 			fail("state-file-stale-after-overlap", "after overlapping %s(%s) and %s(%s) both returned, a proxy restored from the state file differs from the live one in %d observables, first: %s", c1.Kind, c1.Svc, c2.Kind, c2.Svc, len(d), d[0])
 			return
 		}
+		// (a) crash points while the two were running: the two commands touch different services (s0 on
+		// h0.example, s1 on h1.example), so what a kill would have left restores, service by service,
+		// to that service's configuration before or after the command that touched it
+		isS1 := func(key string) bool { return strings.Contains(key, "h1.example") || strings.Contains(key, "s1") }
+		mix := func(base, other map[string]string) map[string]string {
+			out := map[string]string{}
+			for k, v := range base {
+				if !isS1(k) {
+					out[k] = v
+				}
+			}
+			for k, v := range other {
+				if isS1(k) {
+					out[k] = v
+				}
+			}
+			return out
+		}
+		legal := []map[string]string{pre, live, mix(pre, live), mix(live, pre)}
+		seen := map[string]bool{}
+		for k, cp := range mine {
+			if !cp.exist || seen[string(cp.data)] {
+				continue
+			}
+			seen[string(cp.data)] = true
+			points++
+			cv, rerr := restoreView(w, cp.data, fmt.Sprintf("ocp%d-%d", round, k))
+			if rerr != "" {
+				fail("crash-point:unrestorable:overlap:"+cp.point, "while %s(%s) and %s(%s) overlapped, at %s: the %d bytes on disk cannot be restored (%s)", c1.Kind, c1.Svc, c2.Kind, c2.Svc, cp.point, len(cp.data), rerr)
+				return
+			}
+			ok := false
+			for _, l := range legal {
+				ok = ok || sameView(cv, l)
+			}
+			if !ok {
+				d := DiffObs(live, cv)
+				fail("crash-point:neither-pre-nor-post:overlap:"+cp.point, "while %s(%s) and %s(%s) overlapped, at %s: the file on disk restores to a configuration in which some service is neither as before nor as after the command that touched it (against the final configuration: %d differences, e.g. %s)", c1.Kind, c1.Svc, c2.Kind, c2.Svc, cp.point, len(d), d[0])
+				return
+			}
+		}
 		pairs++
 		run.Class(fmt.Sprintf("overlap|%s+%s", c1.Kind, c2.Kind))
 	}
 	run.Count("overlapping_pairs_checked", pairs)
+	run.Count("crash_points_checked_during_overlap", points)
 }
 
 // ---------- real binary ----------
